@@ -29,7 +29,7 @@ import (
 func init() {
 	Register(&Monitor{
 		ID: "C15",
-		Rule: "hostile inputs to every public entry point, executed in child processes that journal each case (kind and raw input) before running it: random bytes; valid expressions/documents mutated at byte and token level; grammar-aware extremes (nested parentheses, flat chains of up to 120 operands for every binary operator with operands that decide / do not decide the result early, long step/predicate chains, very long names) sized for the super-linear GLL parser; XML/HTML/JSON with deep nesting and pathological constructs; every expression of a pool against every document of a pool; bindings with nil values and user functions that return (nil,nil), an error or panic; Unmarshal targets nil / non-pointers / nil pointers / pointer chains / maps / arrays / channels / funcs / interfaces / self- and mutually-recursive struct and pointer types; Exec with a nil cursor and a nil or zero Grammar; well-typed random queries over the whole builtin palette; " +
+		Rule: "hostile inputs to every public entry point, executed in child processes that journal each case (kind and raw input) before running it: random bytes; valid expressions/documents mutated at byte and token level; grammar-aware extremes (nested parentheses, flat chains of up to 120 operands for every binary operator with operands that decide / do not decide the result early, long step/predicate chains, very long names) sized for the super-linear GLL parser; XML/HTML/JSON with deep nesting and pathological constructs; XML document type declarations whose internal subsets are assembled from well-formed and broken ENTITY/ELEMENT/ATTLIST/NOTATION pieces; every expression of a pool against every document of a pool; bindings with nil values and user functions that return (nil,nil), an error or panic; Unmarshal targets nil / non-pointers / nil pointers / pointer chains / maps / arrays / channels / funcs / interfaces / self- and mutually-recursive struct and pointer types; Exec with a nil cursor and a nil or zero Grammar; well-typed random queries over the whole builtin palette; " +
 			"oracle: every call returns within the per-case budget of 30 s of the child's processor time (rusage, not wall-clock; >= 10^3 x the slowest case on the unchanged tree) and returns (value, nil) or (_, error): a case over the budget (child stops, parent resumes after it), a panic escaping the API, a dead child (attributed to the journaled case), or (nil, nil) is a violation; for well-typed queries an error containing 'xpath query panic' is a violation. distinct_nontrivial = distinct (entry point, input class, outcome) triples where the outcome is not a plain success",
 		Assumptions: []string{"'terminates' is decided as 'returns within 30 s of processor time' for inputs of the generated sizes; the 20 min wall-clock watchdog around a shard only makes the run inconclusive", "inputs are sized so that the pinned tree answers each within seconds (GLL parsing is super-linear)"},
 		NCases:      func(tier string) int { return 0 },
@@ -146,6 +146,22 @@ func c15Gen(g *rng.R) c15Case {
 		}
 		body := rng.Pick(g, []string{"<r/>", "<r>caf\xe9</r>", "<r a='\xa4'>\xc3\xa9</r>", "<r>x</r>"})
 		return c15Case{"xml/encoding-label", "<?xml version=\"1.0\" encoding=\"" + label + "\"?>" + body}
+	case k < 48:
+		// document type declarations with internal subsets assembled from well-formed and broken pieces
+		pieces := []string{`<!ENTITY e "v">`, `<!ENTITY e>`, `<!ENTITY>`, `<!ENTITY e 'a<b>c'>`, `<!ENTITY % p "x">`, `<!ENTITY e SYSTEM "u">`, `<!ENTITY e "v"`, `<!ENTITY\te\n"v">`, `<!ENTITY e "<!ENTITY f>">`,
+			`<!ELEMENT r ANY>`, `<!ELEMENT r (a|b)*>`, `<!ATTLIST r id ID #IMPLIED>`, `<!ATTLIST r>`, `<!NOTATION n SYSTEM "s">`, `<!-- c -->`, `<?pi d?>`, `%p;`, ` `, `\n`, `]`, `[`, `<!`, `>`, `<!ENTITY e "&#60;">`, `<!ENTITY lt "x">`, `<!DOCTYPE x>`}
+		var sb strings.Builder
+		sb.WriteString(rng.Pick(g, []string{"<!DOCTYPE r [", "<!DOCTYPE r SYSTEM \"u\" [", "<!DOCTYPE r[", "<?xml version=\"1.0\"?><!DOCTYPE r [", "<!doctype r ["}))
+		for i := g.Range(0, 4); i > 0; i-- {
+			sb.WriteString(rng.Pick(g, pieces))
+		}
+		sb.WriteString(rng.Pick(g, []string{"]>", "]>", "]>", "] >", ">", "]", ""}))
+		sb.WriteString(rng.Pick(g, []string{"<r/>", "<r>&e;</r>", "<r a='&e;'/>", "<r>&lt;&f;</r>", ""}))
+		out := sb.String()
+		if g.P(20) {
+			out = mutate(out)
+		}
+		return c15Case{"xml/doctype", out}
 	case k < 50:
 		return c15Case{"xml/random-bytes", randBytes(g.Range(0, 60))}
 	case k < 60:
